@@ -67,6 +67,7 @@ type viewTrack struct {
 	reloadChanged     bool
 	snapAmbig         map[string]bool // values held by >= 2 keys in a served snapshot
 	snapshots         int
+	dupWatch          bool // two watch streams on the range were open at the same time
 }
 
 func newViewTrack() *viewTrack {
@@ -638,6 +639,13 @@ func (c *simClient) Watch(ctx context.Context, key string, opts ...clientv3.OpOp
 		w.next = s.rev + 1
 	}
 	s.nWatches++
+	for _, o := range s.watchers {
+		if !o.done && o.ctx.Err() == nil && o.from == w.from {
+			// only two first subscribers racing through Registry.Monitor produce this
+			s.view(w.from).dupWatch = true
+			s.r.Probe("duplicate-watch-stream")
+		}
+	}
 	s.watchers = append(s.watchers, w)
 	if s.r.Tracing() {
 		s.r.Logf("etcd watch #%d [%q,%q) from rev %d (store rev %d, compacted %d)", w.id, w.from, w.end, w.next, s.rev, s.compactRev)
